@@ -193,6 +193,31 @@ def dependency_diamond_program(core: bool, variant: int) -> G.Program:
     return p
 
 
+def later_type_behind_alias_program(variant: int) -> G.Program:
+    """Near miss: a field named like the struct (of an imported file) that a LATER field of the same definition names through an
+    alias (scalar or array).  The generated Python class body writes the struct's own name for that later field, so the earlier
+    field takes its place there.  The compiler may refuse the file; if it accepts it, every output has to load and agree."""
+    def F(name, base, n=None):
+        return G.FieldSpec(name, base if n is None else f"{base}[{n}]", base, n, None if n is None else str(n))
+
+    bp = "geo/types.yaml"
+    b = G.FileSpec(path=bp, defs=[G.Def(kind="struct", name="Vec3", file=bp, fields=[F("x", "double"), F("y", "double"), F("z", "double")])])
+    rp = "track.yaml"
+    later = F("origin", "Pose") if variant == 0 else F("corners", "Pose", 2)
+    rdefs = [G.Def(kind="alias", name="Pose", file=rp, value="Vec3"),
+             G.Def(kind="message", name="TRACK", file=rp, id=4430, fields=[F("seq", "int32"), F("Vec3", "int32"), later],
+                   flags=["message", "hygiene"])]
+    r = G.FileSpec(path=rp, imports=[["geo/types.yaml", bp]], defs=rdefs)
+    q = G.Program([b, r], rp, {"auto_pad": True, "validate_alignment": True, "import_coredefs": False}, "chain",
+                  {"hygiene", "hygiene/field-named-like-later-type/behind-alias"})
+    q.wellformed = False
+    q.expected_error = None
+    q.expect = {"outcome": "ok-or-refused", "hygiene": "field-named-like-later-type/behind-alias", "label": "field-named-like-later-type",
+                "at": "TRACK", "name": "Vec3", "legal_identifiers": True}
+    q._files = {s_.path: G.render_file(s_) for s_ in q.specs}
+    return q
+
+
 def eval_const(text, env):
     """Value of a constant's YAML text the way the documentation defines it: earlier constants are replaced by their
     value (as text), the rest is arithmetic."""
@@ -904,6 +929,9 @@ def shard(seed, n, idx, quick):
         # value / name hygiene (vlib.defgen.add_hygiene): non-finite and boolean constants, names that are no identifiers, definitions named
         # like native types, fields named like Python descriptors / later field types / Python or C keywords, constants named like fields.
         # Every kind once per run on the smallest base (kind j on shard j mod 16)
+        if idx in (3, 11):
+            hygiene(later_type_behind_alias_program(0 if idx == 3 else 1))
+            res.evaluations += 1
         for j, kind in enumerate(G.HYGIENE_KINDS):
             if j % 16 == idx:
                 hygiene(G.add_hygiene(G.minimal_program(import_coredefs=G.hygiene_needs_core(kind)), G.RandomChooser(seed * 100 + j), kind))
